@@ -24,6 +24,8 @@ def build(tier, seed):
         fams.append(("forin", p, root, None))
     for p, root in gen_shapes.tabcons_cases(rng, 600 if thorough else 100):
         fams.append(("tabcons", p, root, None))
+    for p, root in gen_shapes.fornum_coercion_cases():
+        fams.append(("forcoerce", p, root, None))
     for p, root in gen_shapes.fresh_local_cases():
         fams.append(("fresh", p, root, None))
     # G-pad: a sample of the above embedded among many locals / constants
